@@ -645,6 +645,14 @@ fn run_b(c: &CaseB, lines: &mut Vec<String>, flags: &mut CaseFlags) {
     // TN: iter_insertion()
     let tn: Vec<usize> = g.iter_insertion().map(|f| f.idx).collect();
     obs!("TN", obs_list(&tn));
+    // TNM: iter_insertion_mut(); TNI: iter_insertion_with_indices() as `<FnId>:<function>`
+    let tnm: Vec<usize> = g.iter_insertion_mut().map(|f| f.idx).collect();
+    obs!("TNM", obs_list(&tnm));
+    let tni: Vec<String> = g
+        .iter_insertion_with_indices()
+        .map(|(id, f)| format!("{}:{}", id.index(), f.idx))
+        .collect();
+    obs!("TNI", if tni.is_empty() { "-".to_string() } else { tni.join(" ") });
 
     // TF / TE
     let mut tf_entries = Vec::new();
